@@ -36,7 +36,8 @@ def run_map(pid, kind, tier, seed, caps_mc, caps_sim, assumptions):
         oa = dict(small, KeySeq="<-KS4") if not thorough else dict(small, KeySeq="<-KS4", Cap0s="{1, 2, 3, 4}")
     else:
         small = dict(KeySeq="<-KS3", Kind=K, Cap0s="{2}", Mod="8", ResSet=res8, MaxV="4")
-        oa = dict(small, KeySeq="<-KS4") if not thorough else dict(small, KeySeq="<-KS5")
+        # (five handles would reach capacity 16: the handle table grows before an insertion even when the key is present)
+        oa = dict(small, KeySeq="<-KS4") if not thorough else dict(small, KeySeq="<-KS4", Cap0s="{2, 4, 8}")
     # value-precise for three keys, then every layout (value ids abstracted by the VIEW) for more keys
     mc(run, "OpenAddr.tla", small, oa_inv, pid + "-OpenAddrMC", workers=8, timeout=1800)
     mc(run, "OpenAddr.tla", dict(oa, MaxV="0"), oa_inv, pid + "-OpenAddrLayouts", workers=8, timeout=3600, view="Layout")
